@@ -120,6 +120,15 @@ def delete (s : Store) (id : Nat) : Store × Except KErr Unit :=
   | none => (s, .error .keyNotFound)
   | some _ => (⟨s.keys.filter (fun e => !(e.1 == id)), s.next⟩, .ok ())
 
+/-- `n` simultaneous deletions of one key id: under the store's write lock they are `n` deletions in some order; the store
+afterwards and the number of calls that reported success -/
+def deleteN (s : Store) (id : Nat) : Nat → Store × Nat
+  | 0 => (s, 0)
+  | n + 1 =>
+    let r := delete s id
+    let rest := deleteN r.1 id n
+    (rest.1, (match r.2 with | .ok _ => 1 | .error _ => 0) + rest.2)
+
 /-- `JwkMemStore::exists` -/
 def «exists» (s : Store) (id : Nat) : Bool := (lookup s id).isSome
 
